@@ -661,9 +661,11 @@ class BaseTable:
         to the corresponding numpy arrays.
         """
         ret = {col: getattr(self, col) for col in self.column_names}
-        # Not all tables have metadata
+        # Not all tables have metadata. Use the schema text exactly as stored:
+        # repr(self.metadata_schema) would re-serialise it and a copy would then
+        # not be equal to this table.
         try:
-            ret["metadata_schema"] = repr(self.metadata_schema)
+            ret["metadata_schema"] = self.ll_table.metadata_schema
         except AttributeError:
             pass
         return ret
